@@ -132,7 +132,8 @@ WORDS = ["alpha", "Beta", "gamma", "1 U.S. 1", "x &amp; y", "Foo v. Bar", "délt
 INL = ["i", "em", "b", "span", "a", "u", "sup"]
 BLK = ["p", "div", "blockquote", "section"]
 HID = ["script", "style"]
-ENT = {"&amp;": "&", "&lt;": "<", "&#167;": "§"}
+ENT = {"&amp;": "&", "&lt;": "<", "&#167;": "§", "&#160;": "\u00a0", "&#12;": "\x0c"}
+XML_WS = " \t\r\n"     # what XPath normalize-space() regards as white space
 
 
 def unesc(s):
@@ -148,7 +149,7 @@ def gen_tree(rng, depth, out, ctx="block", used=()):
             w = " ".join(rng.choice(WORDS) for _ in range(rng.randint(1, 3)))
             out.append(rng.choice(["", " ", "\n  "]) + w + rng.choice(["", " ", "\n"]))
         elif r < 0.55:
-            out.append(rng.choice([" ", "\n", "\n   ", "\t"]))
+            out.append(rng.choice([" ", "\n", "\n   ", "\t", "&#160;", "\u2003", "&#12;", " &#160; ", "\u00a0\n"]))
         elif depth < 4:
             r2 = rng.random()
             if r2 < 0.12:
@@ -177,12 +178,12 @@ def expected_visible(doc):
             if not hidden:
                 cur += unesc(m.group(3))
         else:
-            if cur.strip():
+            if cur.strip(XML_WS):
                 nodes.append(cur)
             cur = ""
             if m.group(2) in HID:
                 hidden += -1 if m.group(1) else 1
-    if cur.strip():
+    if cur.strip(XML_WS):
         nodes.append(cur)
     return nodes
 
@@ -246,9 +247,10 @@ def run_shard(spec, rec):
     # invalid steps
     for bad in ("nope", "", "HTML", "html ", 5, None, ("html",)):
         rec.count("invalid_step_checks")
-        for steps in ([bad], ["all_whitespace", bad]):
+        for text, steps in (("a  b", [bad]), ("a  b", ["all_whitespace", bad]), ("", [bad]),
+                            ("______", ["underscores", bad]), (" ", ["all_whitespace", bad])):
             try:
-                clean_text("a  b", steps)
+                clean_text(text, steps)
                 rec.violation("C20.invalid_step_accepted", dict(steps=repr(steps)))
             except ValueError:
                 pass
